@@ -21,6 +21,12 @@ fn main() {
         .ok()
         .and_then(|s| s.parse().ok())
         .unwrap_or(1.0);
+    if id == "C18" && args.get(2).map(|s| s.as_str()) == Some("--c18-child") {
+        let pool: u8 = args.get(3).and_then(|s| s.parse().ok()).unwrap_or(0);
+        let thorough = args.iter().any(|a| a == "thorough");
+        vharness::checks::c18::child_main(pool, thorough);
+        exit(0);
+    }
     let mut i = 2;
     while i < args.len() {
         match args[i].as_str() {
